@@ -112,6 +112,9 @@ theorem module_state_writes_none : Crop.stateWritesOk Gen.C10.moduleStateWrites 
 /-- every reference to a crop / pad primitive inside `direct/` resolves to the modelled definition -/
 theorem primitive_callers_ok : Crop.callersOk Gen.C10.primitiveCallers = true := by decide +kernel
 
+/-- the composites are still built on the modelled primitives (no call edge of the model was removed) -/
+theorem primitive_edges_ok : Crop.edgesOk Gen.C10.primitiveEdges = true := by decide +kernel
+
 /-- no primitive and no module call modifies an argument in place -/
 theorem no_inplace_on_inputs : Gen.C10.inplaceOnInputs = [] := by decide
 
